@@ -201,6 +201,15 @@ Theorem C15_newchannelreq : forall ch f mx mn,
 Proof. exact newchannelreq_roundtrip. Qed.
 Print Assumptions C15_newchannelreq.
 
+(* for EVERY frequency (any residue modulo 100 / 200, any range): accepted by the encoder
+   means decoded back to the same values, outside the window of finding C15-4 *)
+Theorem C15_newchannelreq_lossless_or_error : forall ch f mx mn bs,
+  0 <= ch < 256 -> 0 <= f -> 0 <= mx -> 0 <= mn ->
+  newchannelreq_marshal ch f mx mn = Ok bs ->
+  newchannelreq_unmarshal bs = Ok (ch, f, mx, mn) \/ 1200000000 <= f < 2400000000.
+Proof. exact newchannelreq_lossless_or_error. Qed.
+Print Assumptions C15_newchannelreq_lossless_or_error.
+
 (* ... and not in between (finding C15-4, same root as C07-2) *)
 Theorem C15_newchannelreq_refuted :
   exists bs, newchannelreq_marshal 3 1300000000 5 0 = Ok bs /\
